@@ -315,7 +315,7 @@ def load_known():
 
 
 def write_replay(pid, stage_name, sig, v):
-    d = os.path.join(VERIF, "replays", pid)
+    d = os.path.join(os.environ.get("VERIF_SCRATCH_OUT") or VERIF, "replays", pid)
     os.makedirs(d, exist_ok=True)
     h = hashlib.sha1(sig.encode()).hexdigest()[:10]
     path = os.path.join(d, "%s.json" % h)
@@ -484,8 +484,11 @@ def main_check(pid, tier, seed, replay_path=None):
     evidence = {"property_id": pid, "tier": tier, "seed": seed, "level": mod.LEVEL, "coverage": cov,
                 "assumptions": list(getattr(mod, "ASSUMPTIONS", [])), "wall_s": round(wall, 2),
                 "violations": len(new_sigs)}
-    os.makedirs(os.path.join(VERIF, "evidence"), exist_ok=True)
-    with open(os.path.join(VERIF, "evidence", "%s.json" % pid), "w") as f:
+    # VERIF_SCRATCH_OUT (developer switch, used when checks are run against seeded changes): evidence and replay files
+    # go to that directory instead of /verif
+    ev_root = os.environ.get("VERIF_SCRATCH_OUT") or VERIF
+    os.makedirs(os.path.join(ev_root, "evidence"), exist_ok=True)
+    with open(os.path.join(ev_root, "evidence", "%s.json" % pid), "w") as f:
         json.dump(evidence, f, indent=1, default=str)
     if harness:
         print("HARNESS-ERROR property=%s (%d worker problems); first:\n%s" % (pid, len(harness), harness[0][-3000:]))
